@@ -50,6 +50,8 @@ type proc struct {
 	conn  *grpc.ClientConn
 	alive bool
 	out   *safeBuf
+	// the start is a join attempt that may legitimately be refused (reported as such, not as a failed start)
+	joinAttempt bool
 }
 
 type safeBuf struct {
@@ -131,11 +133,19 @@ func (p *proc) start(env ...string) bool {
 			p.conn.Close()
 		}
 		p.conn, _ = grpc.Dial("127.0.0.1:"+p.port, grpc.WithInsecure())
-		emit(event{"ev": "started", "node": p.id, "ok": 1, "msg": ""})
+		if p.joinAttempt {
+			emit(event{"ev": "joinattempt", "node": p.id, "addr": ":" + p.port, "ack": 1, "msg": ""})
+		} else {
+			emit(event{"ev": "started", "node": p.id, "ok": 1, "msg": ""})
+		}
 		return true
 	case d := <-p.died:
 		p.alive = false
-		emit(event{"ev": "started", "node": p.id, "ok": 0, "msg": d + " | " + p.out.tail()})
+		if p.joinAttempt {
+			emit(event{"ev": "joinattempt", "node": p.id, "addr": ":" + p.port, "ack": 0, "msg": d + " | " + p.out.tail()})
+		} else {
+			emit(event{"ev": "started", "node": p.id, "ok": 0, "msg": d + " | " + p.out.tail()})
+		}
 		return false
 	case <-time.After(25 * time.Second):
 		p.alive = false
@@ -369,6 +379,43 @@ func main() {
 	}
 	_ = d2
 	switch scenario {
+	case "joinfail":
+		// the join handshake is lost: every address of the join list is unreachable.  The node either
+		// reports the failure (its process ends: no join was acknowledged) or claims READY - then the
+		// join counts as acknowledged and every member has to list it
+		dead := "127.0.0.1:" + freePort()
+		d := mk(4, dead)
+		d.joinAttempt = true
+		if d.start() {
+			ps = append(ps, d)
+		}
+		observe(ps, "joinattempt")
+		// an unreachable address followed by a reachable one: the join goes through
+		e := mk(5, dead+",127.0.0.1:"+b.port)
+		ok := e.start()
+		okv := 0
+		if ok {
+			okv = 1
+			ps = append(ps, e)
+		}
+		emit(event{"ev": "joined", "node": 5, "addr": ":" + e.port, "ok": okv})
+		observe(ps, "join")
+		// the node whose first attempt failed retries with a good address (same id, same directory)
+		if !d.alive {
+			d.join = "127.0.0.1:" + a.port
+			d.joinAttempt = false
+			ok := d.start()
+			okv := 0
+			if ok {
+				okv = 1
+				ps = append(ps, d)
+			}
+			emit(event{"ev": "joined", "node": 4, "addr": ":" + d.port, "ok": okv})
+			observe(ps, "join")
+		}
+		c.kill()
+		c.start()
+		observe(ps, "restart")
 	case "basic":
 		b.kill()
 		b.start()
